@@ -21,7 +21,7 @@ B_SRCS := $(wildcard engines/histsim_main.cpp) $(sort $(wildcard engines/b_cfg_*
 C_SRCS := $(wildcard engines/filesim_main.cpp) $(sort $(wildcard engines/c_cfg_*.cpp))
 D_SRCS := $(wildcard engines/readsim_main.cpp) $(sort $(wildcard engines/d_cfg_*.cpp))
 
-ENGINES := buildsim $(if $(strip $(B_SRCS)),histsim) $(if $(strip $(C_SRCS)),filesim) $(if $(strip $(D_SRCS)),readsim)
+ENGINES ?= buildsim $(if $(strip $(B_SRCS)),histsim) $(if $(strip $(C_SRCS)),filesim) $(if $(strip $(D_SRCS)),readsim)
 
 define FLAVOUR_RULES
 $(BUILD)/$(1)/%.o: %.cpp
